@@ -504,11 +504,24 @@ def dup_release_rollback(steps) -> bool:
     """Witness predicate of known finding F11: ROLLBACK TO SAVEPOINT x while a
     *later* savepoint that was also named x has been destroyed by a RELEASE
     (of itself or of an older savepoint).  The server keeps released
-    savepoints in its list and finds the stale one first."""
+    savepoints in its list and finds the stale one first.
+    Statements that are refused do not count: in a failed transaction (after
+    START inside the block, a RELEASE / ROLLBACK TO of an unknown name, or a
+    DDL / CONFIGURE that fails in the backend) only ROLLBACK and ROLLBACK TO an
+    existing savepoint are executed."""
     stack = []          # live savepoints: (name, position)
     released = []       # destroyed by RELEASE: (name, position)
+    failed = False
     for pos in range(len(steps)):
         op, ni = steps[pos][0], steps[pos][1]
+        fault = steps[pos][2] if len(steps[pos]) > 2 else False
+        live = [n for n, _p in stack]
+        if failed and not (op == ROLLBACK or (op == ROLLBACK_TO and ni in live)):
+            continue                     # refused: nothing happens
+        if op == START:
+            if pos > 0:
+                failed = True            # START inside the block is an error
+            continue
         if op == SAVEPOINT:
             stack.append((ni, pos))
         elif op == RELEASE or op == ROLLBACK_TO:
@@ -518,6 +531,7 @@ def dup_release_rollback(steps) -> bool:
                     idx = q
                     break
             if idx < 0:
+                failed = True
                 continue
             if op == RELEASE:
                 released.extend(stack[idx:])
@@ -527,6 +541,10 @@ def dup_release_rollback(steps) -> bool:
                     if rn == ni and rpos > stack[idx][1]:
                         return True
                 del stack[idx + 1:]
+                failed = False
+        elif op == SET_CONFIG or op == DDL:
+            if fault:
+                failed = True
         elif op == COMMIT or op == ROLLBACK:
             break
     return False
